@@ -236,6 +236,31 @@ impl Cfg {
     }
 }
 
+pub fn allow_list(allow: u8) -> Vec<AllowableErrors> {
+    let mut v = Vec::new();
+    if allow & ALLOW_IDS != 0 {
+        v.push(AllowableErrors::InvalidTagIds);
+    }
+    if allow & ALLOW_HIER != 0 {
+        v.push(AllowableErrors::HierarchyProblems);
+    }
+    if allow & ALLOW_OVERSIZED != 0 {
+        v.push(AllowableErrors::OversizedTags);
+    }
+    v
+}
+
+/// The same configuration reached through an earlier, different tolerance setting: allow_errors(earlier) and then
+/// allow_errors(cfg.allow) (the last call is made even for the empty set).
+pub fn parse_slice_reconfigured<T: SpecT>(bytes: &[u8], cfg: &Cfg, earlier: u8) -> Obs {
+    let mut base = cfg.clone();
+    base.allow = 0;
+    let mut it: TagIterator<&[u8], T> = make_iter(bytes, &base);
+    it.allow_errors(&allow_list(earlier));
+    it.allow_errors(&allow_list(cfg.allow));
+    drive(&mut it, budget_for(bytes.len()))
+}
+
 pub fn make_iter<R: Read, T: SpecT>(src: R, cfg: &Cfg) -> TagIterator<R, T> {
     let buffered: Vec<T> = cfg.buffered.iter().map(|id| T::get_master_tag(*id, Master::Start).expect("machinery: buffered id not a master")).collect();
     let mut it = match cfg.cap {
@@ -243,17 +268,7 @@ pub fn make_iter<R: Read, T: SpecT>(src: R, cfg: &Cfg) -> TagIterator<R, T> {
         Some(c) => TagIterator::with_capacity(src, &buffered, c),
     };
     if cfg.allow != 0 {
-        let mut v = Vec::new();
-        if cfg.allow & ALLOW_IDS != 0 {
-            v.push(AllowableErrors::InvalidTagIds);
-        }
-        if cfg.allow & ALLOW_HIER != 0 {
-            v.push(AllowableErrors::HierarchyProblems);
-        }
-        if cfg.allow & ALLOW_OVERSIZED != 0 {
-            v.push(AllowableErrors::OversizedTags);
-        }
-        it.allow_errors(&v);
+        it.allow_errors(&allow_list(cfg.allow));
     }
     match cfg.max_size {
         MaxSize::Default => {}
